@@ -28,15 +28,17 @@ const int MAXOBJ = 4;
 const int NCELL = (MAXOBJ + 1) * 2;
 
 struct RW { // concrete witness
-  std::array<long, 3> sc;              // x, y, b1
+  std::array<long, 4> sc;              // x, y, b1, b2
   std::array<long, 3> ref;             // p, q, r encoded: 0 = null, else obj*8+off
-  std::array<long, NCELL> r1, r2, rr;  // region contents (rr: encoded references)
+  std::array<long, NCELL> r1, r2, rr, rb; // region contents (rr: encoded references, rb: booleans)
   std::array<long, MAXOBJ + 1> site;   // allocation site of each object (0: not allocated)
+  std::array<long, MAXOBJ + 1> home;   // region variable the object was allocated in
   std::array<long, MAXOBJ + 1> freed;
   long nobj = 0;
-  std::tuple<const std::array<long, 3> &, const std::array<long, 3> &, const std::array<long, NCELL> &, const std::array<long, NCELL> &,
-             const std::array<long, NCELL> &, const std::array<long, MAXOBJ + 1> &, const std::array<long, MAXOBJ + 1> &, const long &>
-  tie() const { return std::tie(sc, ref, r1, r2, rr, site, freed, nobj); }
+  std::tuple<const std::array<long, 4> &, const std::array<long, 3> &, const std::array<long, NCELL> &, const std::array<long, NCELL> &,
+             const std::array<long, NCELL> &, const std::array<long, NCELL> &, const std::array<long, MAXOBJ + 1> &, const std::array<long, MAXOBJ + 1> &,
+             const std::array<long, MAXOBJ + 1> &, const long &>
+  tie() const { return std::tie(sc, ref, r1, r2, rr, rb, site, home, freed, nobj); }
   bool operator<(const RW &o) const { return tie() < o.tie(); }
   bool operator==(const RW &o) const { return tie() == o.tie(); }
 };
@@ -51,7 +53,7 @@ int off_of(long r) { return (int)(r % 8); }
 int cell_of(long r) { return obj_of(r) * 2 + off_of(r) / 4; }
 std::string rstr(long r) { return r == 0 ? "null" : (r == UNDEF ? "?" : "o" + std::to_string(obj_of(r)) + "+" + std::to_string(off_of(r))); }
 std::string wstr(const RW &w) {
-  std::string s = "{x=" + std::to_string(w.sc[0]) + ",y=" + std::to_string(w.sc[1]) + ",b1=" + std::to_string(w.sc[2]) + ",p=" + rstr(w.ref[0]) + ",q=" + rstr(w.ref[1]) +
+  std::string s = "{x=" + std::to_string(w.sc[0]) + ",y=" + std::to_string(w.sc[1]) + ",b1=" + std::to_string(w.sc[2]) + ",b2=" + std::to_string(w.sc[3]) + ",p=" + rstr(w.ref[0]) + ",q=" + rstr(w.ref[1]) +
                   ",r=" + rstr(w.ref[2]);
   for (int o = 1; o <= w.nobj; o++) {
     s += ",o" + std::to_string(o) + "(site" + std::to_string(w.site[o]) + (w.freed[o] ? ",freed" : "") + "):";
@@ -60,6 +62,7 @@ std::string wstr(const RW &w) {
       if (w.r1[c] != UNDEF) s += " R1[" + std::to_string(k * 4) + "]=" + std::to_string(w.r1[c]);
       if (w.r2[c] != UNDEF) s += " R2[" + std::to_string(k * 4) + "]=" + std::to_string(w.r2[c]);
       if (w.rr[c] != UNDEF) s += " RR[" + std::to_string(k * 4) + "]=" + rstr(w.rr[c]);
+      if (w.rb[c] != UNDEF) s += " RB[" + std::to_string(k * 4) + "]=" + std::to_string(w.rb[c]);
     }
   }
   return s + "}";
@@ -124,14 +127,28 @@ void build_alphabet() {
   add("q:=ite(b1,null,p)", ref_select(VQ, VR1, VB1, -1, VP), 1);
   add("havoc(b1)", forget(VB1), 1);
   add("p:=make_ref(R1,site4)", ref_make(VP, VR1, 4), 1);
+  // a region of booleans with its own objects
+  add("p:=make_ref(RB,site5)", ref_make(VP, VRB, 5), 1);
+  add("q:=make_ref(RB,site6)", ref_make(VQ, VRB, 6), 1);
+  add("store(p,RB,b1)", ref_store_v(VP, VRB, VB1), 1);
+  add("store(q,RB,b1)", ref_store_v(VQ, VRB, VB1), 1);
+  add("b2:=load(p,RB)", ref_load(VP, VRB, VB2), 1);
+  add("b2:=load(q,RB)", ref_load(VQ, VRB, VB2), 1);
   add_eng("swap", E_SWAP, 1);
   add_eng("meet(saved)", E_MEET, 1);
 }
 
 // ---- concrete semantics -----------------------------------------------------------------
 int ridx(int refvar) { return refvar == VP ? 0 : (refvar == VQ ? 1 : 2); }
-std::array<long, NCELL> &rgn(RW &w, int g) { return g == VR1 ? w.r1 : (g == VR2 ? w.r2 : w.rr); }
+std::array<long, NCELL> &rgn(RW &w, int g) { return g == VR1 ? w.r1 : (g == VR2 ? w.r2 : (g == VRB ? w.rb : w.rr)); }
 bool live(const RW &w, long r) { return r != 0 && !w.freed[obj_of(r)]; }
+// a reference is used with the region its object was allocated in (R2 is a copy of R1)
+bool well_typed(const RW &w, long r, int g) {
+  long h = w.home[obj_of(r)];
+  return h == g || (g == VR2 && h == VR1);
+}
+long scalar_of(const RW &w, int v) { return v == VX ? w.sc[0] : (v == VY ? w.sc[1] : (v == VB1 ? w.sc[2] : w.sc[3])); }
+void set_scalar(RW &w, int v, long val) { (v == VX ? w.sc[0] : (v == VY ? w.sc[1] : (v == VB1 ? w.sc[2] : w.sc[3]))) = val; }
 
 bool cstep(const ROp &a, const RW &in, std::vector<RW> &out) {
   const Op &o = a.op;
@@ -141,27 +158,28 @@ bool cstep(const ROp &a, const RW &in, std::vector<RW> &out) {
     if (w.nobj >= MAXOBJ) return false;
     w.nobj++;
     w.site[w.nobj] = o.a;
+    w.home[w.nobj] = o.v1;
     w.ref[ridx(o.v0)] = w.nobj * 8;
     out.push_back(w);
     return true;
   }
   case O_REF_STORE: {
     long r = in.ref[ridx(o.v0)];
-    if (!live(in, r)) return false;
+    if (!live(in, r) || !well_typed(in, r, o.v1)) return false;
     long val;
     if (o.v1 == VRR) val = in.ref[ridx(o.v2)];
-    else val = o.v2 >= 0 ? in.sc[o.v2 == VX ? 0 : 1] : o.k;
+    else val = o.v2 >= 0 ? scalar_of(in, o.v2) : o.k;
     rgn(w, o.v1)[cell_of(r)] = val;
     out.push_back(w);
     return true;
   }
   case O_REF_LOAD: {
     long r = in.ref[ridx(o.v0)];
-    if (!live(in, r)) return false;
+    if (!live(in, r) || !well_typed(in, r, o.v1)) return false;
     long val = rgn(w, o.v1)[cell_of(r)];
     if (val == UNDEF) return false;
     if (o.v1 == VRR) w.ref[ridx(o.v2)] = val;
-    else w.sc[o.v2 == VX ? 0 : 1] = val;
+    else set_scalar(w, o.v2, val);
     out.push_back(w);
     return true;
   }
@@ -170,6 +188,7 @@ bool cstep(const ROp &a, const RW &in, std::vector<RW> &out) {
     if (r == 0) return false;
     long off = off_of(r) + o.e.cst;
     if (off != 0 && off != 4) return false;
+    if (!well_typed(in, r, o.v1)) return false;
     w.ref[ridx(o.v2)] = obj_of(r) * 8 + off;
     out.push_back(w);
     return true;
@@ -189,7 +208,7 @@ bool cstep(const ROp &a, const RW &in, std::vector<RW> &out) {
   }
   case O_REF_FREE: {
     long r = in.ref[ridx(o.v1)];
-    if (!live(in, r)) return false;
+    if (!live(in, r) || !well_typed(in, r, o.v0)) return false;
     w.freed[obj_of(r)] = 1;
     out.push_back(w);
     return true;
@@ -238,11 +257,13 @@ RWSet initial_witnesses() {
   for (auto &s : sc)
     for (long b = 0; b < 2; b++) {
       RW w;
-      w.sc = {s[0], s[1], b};
+      w.sc = {s[0], s[1], b, 0};
       w.ref = {0, 0, 0};
       w.r1.fill(UNDEF);
       w.r2.fill(UNDEF);
       w.rr.fill(UNDEF);
+      w.rb.fill(UNDEF);
+      w.home.fill(0);
       w.site.fill(0);
       w.freed.fill(0);
       W.push_back(w);
@@ -257,6 +278,7 @@ Node initial_node() {
     if (ROOT == 0) { // regions declared: the usual start of a function body
       n.r[i].box->apply(reg_init(VR1), nullptr);
       n.r[i].box->apply(reg_init(VRR), nullptr);
+      n.r[i].box->apply(reg_init(VRB), nullptr);
     }
     // the references are null in every witness: tell the domain nothing (top is sound)
     n.r[i].W = initial_witnesses();
@@ -270,7 +292,7 @@ std::string path_str(const std::vector<int> &p) {
   return s;
 }
 std::string path_names(const std::vector<int> &p) {
-  std::string s = ROOT == 0 ? "init(R1); init(RR)" : "(no region_init)";
+  std::string s = ROOT == 0 ? "init(R1); init(RR); init(RB)" : "(no region_init)";
   for (size_t i = 0; i < p.size(); i++) s += " ; " + ALPHA[p[i]].name;
   return s;
 }
@@ -294,6 +316,13 @@ void check_reg(const Reg &r, const std::vector<int> &path) {
     long vals[NVARS] = {0};
     vals[VX] = w.sc[0];
     vals[VY] = w.sc[1];
+    for (int bi = 0; bi < 2; bi++) {
+      Itv bv = r.box->at(bi == 0 ? VB1 : VB2);
+      if (!bv.contains(w.sc[2 + bi])) {
+        report("scalar:M3:boolean-misses-value", path, r.box->print() + " : at(" + var_name(bi == 0 ? VB1 : VB2) + ")=" + bv.str() + " misses " + wstr(w));
+        return;
+      }
+    }
     for (int i = 0; i < 2; i++)
       if (!at[i].contains(w.sc[i])) {
         report("scalar:M3:interval-misses-value", path, r.box->print() + " : at(" + var_name(svars[i]) + ")=" + at[i].str() + " misses " + wstr(w));
@@ -335,18 +364,19 @@ void check_reg(const Reg &r, const std::vector<int> &path) {
       }
     }
   }
-  // loads through p and q from R1 and R2
-  for (int g : {VR1, VR2})
+  // loads through p and q from R1, R2 (ints) and RB (booleans)
+  for (int g : {VR1, VR2, VRB})
     for (int rv : {VP, VQ}) {
+      int scratch = g == VRB ? VB3 : VT1;
       std::unique_ptr<DomBox> p = r.box->clone();
-      p->apply(ref_load(rv, g, VT1), nullptr);
+      p->apply(ref_load(rv, g, scratch), nullptr);
       n_probes++;
       bool pb = p->is_bottom();
-      Itv v = pb ? Itv() : p->at(VT1);
+      Itv v = pb ? Itv() : p->at(scratch);
       for (auto &w : r.W) {
         long rf = w.ref[ridx(rv)];
-        if (!live(w, rf)) continue;
-        long cv = (g == VR1 ? w.r1 : w.r2)[cell_of(rf)];
+        if (!live(w, rf) || !well_typed(w, rf, g)) continue;
+        long cv = (g == VR1 ? w.r1 : (g == VR2 ? w.r2 : w.rb))[cell_of(rf)];
         if (cv == UNDEF) continue;
         if (pb) { report("load-makes-bottom", path, r.box->print() + " : load(" + var_name(rv) + "," + var_name(g) + ") gives bottom; " + wstr(w)); return; }
         if (!v.contains(cv)) {
